@@ -6,6 +6,7 @@ require (
 	github.com/apparentlymart/go-textseg/v15 v15.0.0
 	github.com/hashicorp/hcl/v2 v2.0.0
 	github.com/zclconf/go-cty v1.16.3
+	golang.org/x/text v0.31.0
 	pgregory.net/rapid v1.3.0
 )
 
@@ -13,7 +14,6 @@ require (
 	github.com/agext/levenshtein v1.2.1 // indirect
 	github.com/google/go-cmp v0.6.0 // indirect
 	github.com/mitchellh/go-wordwrap v1.0.1 // indirect
-	golang.org/x/text v0.31.0 // indirect
 )
 
 replace github.com/hashicorp/hcl/v2 => /repo
